@@ -361,12 +361,12 @@ fn graphs_of(sp: &Space) -> Vec<G> {
 }
 
 /// Source-star family on 5 nodes for the shortest-path algorithms: node 0 reaches each of 1..4 directly (edge absent /
-/// weight 2; thorough also weight 1) and every subset of the 12 zero-weight edges among 1..4 is added (thorough: in two
-/// insertion orders).  Label-correcting algorithms must keep relaxing while distances still shrink although every node has been
+/// weight 1 / weight 2) and every subset of the 12 zero-weight edges among 1..4 is added (quick: the subsets whose edges
+/// all run with, or all against, the node order; thorough: all 4096, in two insertion orders).  Label-correcting algorithms must keep relaxing while distances still shrink although every node has been
 /// reached: chains of cheap edges that run against the edge enumeration order need one round per link, which the
 /// <= 4-node spaces cannot express (three links against the order need five nodes).
 fn star_graphs(tier: Tier) -> Vec<G> {
-    let star_w: Vec<u8> = if tier == Tier::Quick { vec![WM + 100, W2] } else { vec![WM + 100, W1, W2] }; // WM+100 = absent
+    let star_w: Vec<u8> = vec![WM + 100, W1, W2]; // WM+100 = absent; two distinct weights, so that a detour can be cheaper
     let inner: Vec<(u8, u8)> = (1..5u8).flat_map(|u| (1..5u8).filter(move |v| *v != u).map(move |v| (u, v))).collect();
     let mut out = vec![];
     let combos = star_w.len().pow(4);
@@ -384,6 +384,14 @@ fn star_graphs(tier: Tier) -> Vec<G> {
             continue;
         }
         for mask in 0u32..(1 << inner.len()) {
+            // quick: only masks whose inner edges all run with the node order or all against it (2 x 2^6 - 1 masks)
+            if tier == Tier::Quick {
+                let up = inner.iter().enumerate().any(|(k, &(u, v))| mask & (1 << k) != 0 && u < v);
+                let down = inner.iter().enumerate().any(|(k, &(u, v))| mask & (1 << k) != 0 && u > v);
+                if up && down {
+                    continue;
+                }
+            }
             let mut edges = star.clone();
             for (k, &(u, v)) in inner.iter().enumerate() {
                 if mask & (1 << k) != 0 {
@@ -573,7 +581,7 @@ fn run(args: vcore::Args) -> i32 {
                 }
             }
         }
-        space_rows.push(json!({"nodes": 5, "edges": "1..=16", "alphabet": "source-star: 0->i absent / 2 (thorough: / 1), every subset of the 12 zero-weight edges among 1..4", "int64_properties": false, "graphs_incl_insertion_orders": graphs.len(), "real_calls_checked": evals}));
+        space_rows.push(json!({"nodes": 5, "edges": "1..=16", "alphabet": "source-star: 0->i absent / 1 / 2, subsets of the 12 zero-weight edges among 1..4 (quick: all-ascending or all-descending subsets; thorough: every subset, two insertion orders)", "int64_properties": false, "graphs_incl_insertion_orders": graphs.len(), "real_calls_checked": evals}));
     }
     // large simple graphs for the union-find / component algorithms (family union_find_large)
     let big_ns: Vec<usize> = if tier == Tier::Thorough { vec![6, 7] } else { vec![6] };
